@@ -15,10 +15,10 @@ import vlib
 from vlib import cfg, MV
 
 MANIFEST = dict(
-    technique='TLA+ closed model Demux (P-spec Target = I-spec lookup, TLC exhaustive) + every graph transition replayed on a real stack via the sockets API and packet injection; observed traces validated by TLC against the P-spec TraceSock',
-    text='TLC checks for every reachable population of UDP sockets (bound to wildcard/specific addresses, connected) and every inbound 4-tuple that the registry lookup returns exactly the most specific matching socket or none. Every transition of that graph is executed on a real stack: after each injected datagram every open socket is drained and TLC decides from the trace that exactly the P-spec target received exactly that payload and nobody else did. Seeded scenarios add TCP listeners (SYN to listener vs no socket: one RST), unassigned / removed / promiscuous destination addresses and IPv6.',
+    technique='TLA+ closed models Demux (UDP) and DemuxTcp (listeners + active opens): P-spec Target = I-spec four-step lookup, TLC exhaustive; every graph transition replayed on a real stack via the sockets API and packet injection, observed traces validated by TLC against the P-spec TraceSock (TCP: reset iff no socket, final ACK for the SYN-ACK of an active open, SYN-ACK for the first SYN to a listener); registrations racing deliveries: concurrent histories validated for linearizability by TLC against TraceDemuxLin',
+    text='TLC checks for every reachable population of UDP sockets (bound to wildcard/specific addresses, connected) and every inbound 4-tuple that the registry lookup returns exactly the most specific matching socket or none. Every transition of that graph is executed on a real stack: after each injected datagram every open socket is drained and TLC decides from the trace that exactly the P-spec target received exactly that payload and nobody else did. The same for TCP sockets (DemuxTcp: bind, listen, active open, close next to each other on one port; injected SYN / SYN-ACK). Seeded scenarios add TCP listeners (SYN to listener vs no socket: one RST), TCP connections with colliding second sockets, unassigned / removed / promiscuous destination addresses and IPv6. Concurrent histories (UDP bind / connect / close lifecycles, a TCP listener lifecycle and injectors racing on one stack) are recorded as call/return events and TLC searches a linearization in which every datagram went to the most specific socket registered at that instant.',
     design='5 C09',
-    note='Constants of the exhaustive graph: 2 (quick) / 3 (thorough) sockets, 2 local addresses + wildcard, 2 ports + ephemeral, 2 remotes. NIC-bound sockets, multicast and racing registration/delivery (E4) are not explored yet. The removed-address half is asserted only when no socket holds a route to the address.')
+    note='Constants of the exhaustive graph: 2 (quick) / 3 (thorough) sockets, 2 local addresses + wildcard, 2 ports + ephemeral, 2 remotes. DemuxTcp: 2 sockets, 1 port. Established TCP connections are only modelled as far as the demultiplexer is concerned (lingering and half-open connections are treated as "anything may answer"). The racing histories sample schedules (seeded perturbation), they do not enumerate them, and use two-step linearization points (claim/activate, find/enqueue) because the implementation is not atomic there. NIC-bound sockets and multicast are not explored. Known finding F29 (two active opens on one 4-tuple) is replayed on every run. The removed-address half is asserted only when no socket holds a route to the address.')
 
 SPEC = ['sock']
 NIC = dict(id=1, mtu=1500, addr4=['10.0.0.1', '10.0.0.2'], addr6=['fd00::1'])
@@ -56,6 +56,80 @@ def ops_from_path(path, states, nsock, rng):
     return ops
 
 
+def tcp_ops_from_path(path, nsock, rng):
+    """One DemuxTcp graph path -> sockd script (TCP sockets: bind / listen / active open / close, injected SYN and SYN-ACK)."""
+    ops = [dict(op='tcp', s=s, v=4) for s in range(nsock)]
+    eph = set()
+    bound = set()
+    k = 0
+    for st in path:
+        a, args = st['a'], st['args']
+        if a == 'Bind':
+            ops.append(dict(op='bind', s=args[0], addr=args[1], port=args[2], _ok=args[3]))
+            if args[3]:
+                bound.add(args[0])
+        elif a == 'Listen':
+            ops.append(dict(op='listen', s=args[0], backlog=8))
+        elif a == 'Connect':
+            ops.append(dict(op='connect', s=args[0], addr=args[1], port=args[2], _okc=args[3]))
+            ops.append(dict(op='settle', ms=10))
+            if args[3] and args[0] not in bound:
+                eph.add(args[0])
+        elif a == 'CloseSock':
+            ops.append(dict(op='close', s=args[0]))
+            ops.append(dict(op='settle', ms=5))
+        elif a == 'Inject':
+            kind, src, sport, dst, dport, t = args
+            k += 1
+            dp = dport
+            if 100 <= dport < 5000:
+                s = dport - 100
+                dp = dict(lportof=s, **{'else': dport}) if s in eph else dport
+            o = dict(op='inject', kind='tcp', v=4, src=src, sport=sport, dst=dst, dport=dp, seqhi=rng.randrange(1, 65535), seqlo=rng.randrange(65536),
+                     n=0, seed=0, win=20000, _ttarget=t)
+            if kind == 'syn':
+                o.update(flags='S', ackhi=0, acklo=0)
+            else:
+                o.update(flags='SA', ackofport=dp)
+            ops.append(o)
+            ops.append(dict(op='settle', ms=10))
+        else:
+            raise vlib.Inconclusive('unknown DemuxTcp action ' + a)
+    return ops
+
+
+def classify_f29(seg, ln):
+    """Known finding F29: the rejected event is an injected segment (precondition "at most one socket per binding"), and before
+    it two open TCP sockets started a connection on the same 4-tuple, one of them bound to a specific local address and the
+    other to the wildcard (their registrations live in different demultiplexer tables)."""
+    ev = seg[ln] if ln < len(seg) else {}
+    if not (ev.get('ev') == 'op' and ev.get('op') == 'inject'):
+        return None
+    typ, bindaddr, conn, closed = {}, {}, {}, set()
+    for e in seg[:ln]:
+        if e.get('ev') != 'op':
+            continue
+        s = e.get('s')
+        if e.get('op') in ('udp', 'tcp'):
+            typ[s] = e['op']
+        elif e.get('op') == 'bind' and e.get('err') == '':
+            bindaddr[s] = e.get('addr', '')
+        elif e.get('op') == 'connect' and typ.get(s) == 'tcp' and e.get('err') in ('', 'connection attempt started'):
+            conn[s] = (e.get('laddr'), e.get('lport'), e.get('addr'), e.get('port'))
+        elif e.get('op') == 'close':
+            closed.add(s)
+    live = [s for s in conn if s not in closed]
+    for a in live:
+        for b in live:
+            if a < b and conn[a] == conn[b] and s_specific(bindaddr.get(a)) != s_specific(bindaddr.get(b)):
+                return 'F29'
+    return None
+
+
+def s_specific(addr):
+    return bool(addr)
+
+
 def strip(ops):
     return [{k: v for k, v in o.items() if not k.startswith('_')} for o in ops]
 
@@ -72,7 +146,12 @@ def seeded_scenarios(ctx, n):
             la = rng.choice(['', '10.0.0.1'])
             peer, pport = '10.0.0.9', 80
             ops += [dict(op='tcp', s=0, v=4), dict(op='bind', s=0, addr=la, port=lp), dict(op='connect', s=0, addr=peer, port=pport), dict(op='settle', ms=15)]
-            variant = (i // 6) % 4
+            variant = (i // 6) % 5
+            if variant == 4:
+                # the replay script of known finding F29: the second socket is bound to the OTHER kind of local address
+                # (wildcard vs specific) and opens a connection on the same 4-tuple
+                ops += [dict(op='tcp', s=1, v=4), dict(op='bind', s=1, addr='' if la else '10.0.0.1', port=lp),
+                        dict(op='connect', s=1, addr=peer, port=pport), dict(op='settle', ms=15)]
             if variant in (0, 1):
                 # a second socket takes the same local port (the first one's reservation ended with its connect) and tries the
                 # same peer: its registration collides and must fail WITHOUT disturbing the first connection
@@ -182,6 +261,19 @@ def run(ctx):
         scs.append(dict(nics=[NIC], ops=ops_from_path(p, script['states'], nsock, ctx.rng)))
     nmodel = len(scs)
     extra = seeded_scenarios(ctx, ctx.pick(40, 600))
+    # ---- the TCP half of the closed model: listeners and connections (active opens) next to each other
+    nst = 2
+    ct = cfg(constants=dict(Socks=MV('{0, 1}'), LAddrs=MV('{"10.0.0.1", "10.0.0.2"}'), Ports=MV('{5000}'), Remotes=MV('{"10.0.0.9", "10.0.0.8"}'),
+                            RPorts=MV('{7}'), Foreign='10.0.0.77', Primary='10.0.0.1'),
+             invariants=['LookupMatchesTarget', 'OneRegPerId', 'ResExclusive'])
+    rt = ctx.tlc('DemuxTcp', ct, SPEC, name='DemuxTcp', dump_dot=True, must_pass=True, coverage=False, timeout=1800)
+    script_t, stats_t = vlib.graph_script(ctx, rt)
+    ctx.extra['tcp_graph'] = stats_t
+    tcp_scs = [dict(nics=[NIC], ops=tcp_ops_from_path(p, nst, ctx.rng)) for p in script_t['paths']]
+    if not ctx.thorough():
+        ctx.rng.shuffle(tcp_scs)
+        tcp_scs = tcp_scs[:60]
+    extra = extra + tcp_scs
     allsc = scs + extra
     sp = os.path.join(ctx.work, 'scen.json')
     tp = os.path.join(ctx.work, 'trace.ndjson')
@@ -211,6 +303,40 @@ def run(ctx):
                     ndrift += 1
                     if ndrift <= 3:
                         ctx.model_drift('Demux model predicted target %s, sockets that received: %s' % (want, got))
+    # TCP graph scenarios: predicted "no socket" <=> the stack answered the injected segment with a reset
+    ntcp = 0
+    for si in range(len(allsc) - len(tcp_scs), len(allsc)):
+        ops = allsc[si]['ops']
+        oi = -1
+        cur = None
+        sawrst = False
+
+        def close_inject():
+            nonlocal ndrift
+            if cur is not None and ops[cur]['dst'] != '10.0.0.77':
+                want_rst = ops[cur]['_ttarget'] == -1
+                if want_rst and not sawrst:     # (a socket may answer with a reset of its own, so only this direction is a prediction)
+                    ndrift += 1
+                    if ndrift <= 3:
+                        ctx.model_drift('DemuxTcp model predicted target %s for %s, reset seen: %s' % (ops[cur]['_ttarget'], strip([ops[cur]])[0], sawrst))
+        touched = set()
+        for e in segs[si]:
+            if e['ev'] == 'op':
+                close_inject()
+                oi += 1
+                cur, sawrst = None, False
+                if ops[oi].get('op') == 'connect':
+                    touched.add('connect')         # half-open / lingering connections are not in the closed model: predictions only before the first connect
+                if '_ttarget' in ops[oi]:
+                    tup = (ops[oi]['src'], ops[oi]['sport'], ops[oi]['dst'], str(ops[oi]['dport']))
+                    if tup not in touched and 'connect' not in touched:
+                        cur = oi
+                        ntcp += 1
+                    touched.add(tup)
+            elif e['ev'] == 'emit' and e.get('kind') == 'tcp' and cur is not None and 'R' in e.get('flags', ''):
+                sawrst = True
+        close_inject()
+    ctx.extra['tcp_model_predictions_checked'] = ntcp
     ctx.extra['model_predictions_checked'] = ninj
     ctx.extra['drift_count'] = ndrift
     tc = cfg(spec='TSpec', constraint='HWMark', postcondition='Accepted')
@@ -223,7 +349,8 @@ def run(ctx):
     for si, ln in rej:
         ev = segs[si][ln] if ln < len(segs[si]) else {}
         ctx.violation('socket-layer behaviour rejected by the C09 P-spec at event %d: %s' % (ln, {k: v for k, v in ev.items() if k not in ('pay', 'raw')}),
-                      dict(kind='scenario', scenario=dict(nics=allsc[si]['nics'], ops=strip(allsc[si]['ops'])), events=segs[si][:ln + 1]))
+                      dict(kind='scenario', scenario=dict(nics=allsc[si]['nics'], ops=strip(allsc[si]['ops'])), events=segs[si][:ln + 1]),
+                      key=classify_f29(segs[si], ln))
     # vacuity guard of the TCP-connection family: SYN-ACKs that acknowledge the stack's own SYN were injected and answered
     nsa = nack = 0
     for sg in segs:
@@ -260,3 +387,9 @@ def run(ctx):
     ctx.extra['binding_selftest'] = 'mis-attributed datagram and missing RST rejected'
     ctx.assumptions += ['pkg/sleep builds only with hook H1', 'harness codecs independent of protocol/header',
                         'route local address for unbound sockets = first NIC address (model assumption, drift-checked)']
+    # ---- E4: registrations racing deliveries (concurrent histories on one real stack, linearizability decided by TLC against
+    #      TraceDemuxLin; built by tools/checks/c09race.py)
+    import checks.c09race as c09race
+    c09race.demux_race(ctx)
+    ctx.assumptions += ['racing histories: schedules are whatever the Go scheduler produced under seeded perturbation (sampled, not enumerated); '
+                        'bind = claim then activate, close = deactivate then unclaim, inject = find then enqueue (two-step linearization)']
